@@ -1322,6 +1322,95 @@ Definition is_other_gen (q16 numk i c : Z) : bool := (q16 <? 16 * c) || (numk <=
     return "gen/KernelBreakdownRules_gen.v"
 
 
+# ---- TraceCounters._get_queue_length_time_series_for_rank / _get_memory_bw_time_series_for_rank -> coq/gen/CounterRules_gen.v ----
+def _strict(fn, nm, want):
+    """the statements of fn (docstrings aside) must be exactly `want`; entries of `want` may be compiled regular expressions, whose groups
+    are returned in order"""
+    import re
+    if fn is None:
+        raise Stop(f"{nm} not found")
+    texts = [ast.unparse(st) for st in fn.body if not (isinstance(st, ast.Expr) and isinstance(st.value, ast.Constant))]
+    if len(texts) != len(want):
+        raise Stop(f"{nm}: {len(texts)} statements instead of {len(want)}")
+    got = []
+    for a, b in zip(texts, want):
+        if isinstance(b, str):
+            if a != b:
+                raise Stop(f"{nm}: `{a[:150]}` is not what the model was written for")
+        else:
+            m = b.fullmatch(a)
+            if m is None:
+                raise Stop(f"{nm}: `{a[:150]}` is not what the model was written for")
+            got.extend(m.groups())
+    return got
+
+
+def gen_counter_rules() -> str:
+    """Reads the two per-rank time-series builders of TraceCounters statement by statement (strict shape).  The numbers the model depends on
+    are taken from the statements rather than assumed: the increments given to a launch and to a device activity, the stream value that
+    marks a host row, the sort keys and their directions, and the floor given to a zero-length memory copy."""
+    import re
+    tree = ast.parse(open(os.path.join(fw.REPO, "hta/analyzers/trace_counters.py")).read())
+    cls = next((n for n in tree.body if isinstance(n, ast.ClassDef) and n.name == "TraceCounters"), None)
+    fns = {n.name: n for n in (cls.body if cls else []) if isinstance(n, ast.FunctionDef)}
+    R = re.compile
+    num = r"(-?\d+)"
+    q = _strict(fns.get("_get_queue_length_time_series_for_rank"), "_get_queue_length_time_series_for_rank", [
+        "trace_df: pd.DataFrame = t.get_trace(rank)",
+        "runtime_calls: pd.DataFrame = trace_df.query(t.symbol_table.get_runtime_launch_events_query()).copy()",
+        "runtime_calls.drop(['stream', 'pid', 'tid'], axis=1, inplace=True)",
+        R(r"runtime_calls\['queue'\] = " + num),
+        R(r"gpu_kernels = trace_df\[trace_df\['stream'\]\.ne\(" + num + r"\)\]\.copy\(\)"),
+        R(r"gpu_kernels\['queue'\] = " + num),
+        "runtime_calls_filt = runtime_calls.join(gpu_kernels[['stream', 'pid', 'tid', 'correlation']].set_index('correlation'), on='correlation')",
+        "gpu_kernels_filt = gpu_kernels[gpu_kernels['correlation'].isin(runtime_calls['correlation'])]",
+        "assert len(runtime_calls_filt) == len(gpu_kernels_filt)",
+        R(r"merged_df = pd\.concat\(\[runtime_calls_filt, gpu_kernels_filt\]\)\.sort_values\(by=\['ts', 'queue'\], ascending=\[(True|False), (True|False)\]\)\.set_index\('index'\)"),
+        "result_df_list = []",
+        R(r"for stream, stream_df in merged_df\.groupby\('stream'\):\n(?:    logger\.debug\(.*\)\n)?    stream_df\['queue_length'\] = stream_df\['queue'\]\.cumsum\(\)\n    result_df_list\.append\(stream_df\)"),
+        "return pd.concat(result_df_list)[['ts', 'pid', 'tid', 'stream', 'queue_length']] if len(result_df_list) > 0 else None",
+    ])
+    launch_delta, host_stream, kernel_delta, ts_asc, q_asc = int(q[0]), int(q[1]), int(q[2]), q[3] == "True", q[4] == "True"
+    b = _strict(fns.get("_get_memory_bw_time_series_for_rank"), "_get_memory_bw_time_series_for_rank", [
+        "trace_df: pd.DataFrame = t.get_trace(rank)",
+        "sym_table = t.symbol_table.get_sym_table()",
+        R(r"gpu_kernels = trace_df\[trace_df\['stream'\]\.ne\(" + num + r"\)\]\.copy\(\)"),
+        "gpu_kernels['kernel_type'] = gpu_kernels[['name']].apply(lambda x: get_kernel_type(sym_table[x['name']]), axis=1)",
+        "memcpy_kernels = gpu_kernels[gpu_kernels.kernel_type == KernelType.MEMORY.name].copy()",
+        "memcpy_kernels['name'] = memcpy_kernels[['name']].apply(lambda x: get_memory_kernel_type(sym_table[x['name']]), axis=1)",
+        R(r"memcpy_kernels\.loc\[memcpy_kernels\.dur == " + num + r", \['dur'\]\] = " + num),
+        "membw_time_series_a = memcpy_kernels[['ts', 'name', 'pid', 'memory_bw_gbps']]",
+        "membw_time_series_b = memcpy_kernels[['ts', 'name', 'dur', 'pid', 'memory_bw_gbps']].copy()",
+        "membw_time_series_b.ts = membw_time_series_b.ts + membw_time_series_b.dur",
+        "membw_time_series_b.memory_bw_gbps = -membw_time_series_b.memory_bw_gbps",
+        "membw_time_series = pd.concat([membw_time_series_a, membw_time_series_b[['ts', 'pid', 'name', 'memory_bw_gbps']]], ignore_index=True).sort_values(by='ts')",
+        "result_df_list = []",
+        "for _, membw_df in membw_time_series.groupby('name'):\n    membw_df.memory_bw_gbps = membw_df.memory_bw_gbps.cumsum()\n    result_df_list.append(membw_df)",
+        "if len(result_df_list) == 0:\n    return None",
+        "result_df = pd.concat(result_df_list)[['ts', 'pid', 'name', 'memory_bw_gbps']]",
+        "return result_df",
+    ])
+    host_stream_b, zero_dur, floor_dur = int(b[0]), int(b[1]), int(b[2])
+    lt = lambda asc, x, y: f"({x} <? {y})" if asc else f"({y} <? {x})"
+    zlit = lambda v: str(v) if v >= 0 else f"({v})"
+    out = f'''(* GENERATED by harness/translate.py from hta/analyzers/trace_counters.py (TraceCounters._get_queue_length_time_series_for_rank,
+   _get_memory_bw_time_series_for_rank) -- do not edit. *)
+From HTA.lib Require Import Base.
+Open Scope Z_scope.
+
+Definition launch_delta_gen : Z := {zlit(launch_delta)}.
+Definition kernel_delta_gen : Z := {zlit(kernel_delta)}.
+Definition is_dev_queue_gen (stream : Z) : bool := negb (stream =? {zlit(host_stream)}).
+Definition is_dev_bw_gen (stream : Z) : bool := negb (stream =? {zlit(host_stream_b)}).
+(* sort_values(by=['ts', 'queue'], ascending=[{ts_asc}, {q_asc}]): row (t1, d1) comes strictly before row (t2, d2) *)
+Definition queue_before_gen (t1 d1 t2 d2 : Z) : bool := {lt(ts_asc, "t1", "t2")} || ((t1 =? t2) && {lt(q_asc, "d1", "d2")}).
+(* memcpy_kernels.loc[memcpy_kernels.dur == {zero_dur}, ['dur']] = {floor_dur} *)
+Definition bw_dur_gen (d : Z) : Z := if d =? {zlit(zero_dur)} then {zlit(floor_dur)} else d.
+'''
+    write_if_changed(os.path.join(GEN, "CounterRules_gen.v"), out)
+    return "gen/CounterRules_gen.v"
+
+
 # ---- the change classes of hta/trace_diff.py -> coq/gen/DiffRules_gen.v ----
 def gen_diff_rules() -> str:
     """Reads TraceDiff.compare_traces (diff_counts / diff_duration = test minus control; the sign lambda of counts_change_categories) and the
